@@ -532,9 +532,9 @@ CHECKS['C11']['jobs'] += _hist_jobs('CHECK_C11', 2, 3, [47], reach=('built', 'in
 CHECKS['C11']['level_text'] += ' One shape lets the statement bound to a rebuilt dyndep file stay up to date while the producer of its discovered input is clean but waits for a dirty order-only input: that input must still be brought up to date, as with the information inlined.'
 
 SCENARIOS += ['wide2', 'restat_behind_alias']     # 48, 49
-_CODES = 'one invocation from the empty tree; any subset of commands fails, the first with an exit code from {1,2,3,126,127,128,129,131,137,139,143,255} (what shells and wrapper scripts hand on, without the interrupt code 130), later ones with 1..3, touched or not; -k in {1,2,0}; -j in {1,2,3}'
+_CODES = 'one invocation from the empty tree; any subset of commands fails, the first with an exit code from {1,2,3,126,127,128,129,131,137,139,143,255} (what shells and wrapper scripts hand on, without the interrupt code 130), later ones with 1..3; -k in {1,0}; -j in {1,2}'
 CHECKS['C05']['jobs'] += _mode_jobs('MODE_FAIL', [48], extra=['WIDE_EXIT_CODES'], suffix='_codes', reach=('failed', 'retried', 'all-succeeded'), bounds=_CODES)
-CHECKS['C05']['jobs'] += _real_runner(_mode_jobs('MODE_FAIL', [48], extra=['WIDE_EXIT_CODES'], suffix='_codes', reach=('failed', 'retried', 'all-succeeded'), bounds=_CODES))
+CHECKS['C05']['jobs'] += _real_runner(_mode_jobs('MODE_FAIL', [48], extra=['WIDE_EXIT_CODES'], suffix='_codes', reach=('failed', 'retried', 'all-succeeded'), bounds=_CODES.replace('{1,2,3,126,127,128,129,131,137,139,143,255}', '{2,127,129,143,255}')))
 CHECKS['C05']['level_text'] += ' Two jobs on a two-wide shape draw the exit code of each failing command from the codes shells and wrapper scripts hand on (126, 127, 128 + SIGHUP/SIGQUIT/SIGKILL/SIGSEGV/SIGTERM, 128, 255) instead of 1..3: each is an ordinary failure whose code ninja must return, after waiting for and recording what was running.'
 for _c, _r in (('C01', ('built', 'incremental-build')), ('C02', ('built', 'converged-checked')), ('C03', ('built', 'minimality-checked'))):
     _js = _hist_jobs('CHECK_' + _c, 3, 3, [49], extra_defs=['SINGLE_EDIT', 'DOUBLE_EDIT', 'NO_DELETE'], reach=_r)
@@ -577,6 +577,10 @@ CHECKS['C10']['level_text'] += ' A kernel job runs the real CLParser::Parse on /
 SCENARIOS += ['shared_rspfile']     # 55
 CHECKS['C16']['jobs'] += _mode_jobs('MODE_SCHED', [55], extra=['WITH_FAILURES'], suffix='_rspfile_fail', reach=('built', 'rspfile-kept'), bounds='two statements that run one after the other name the same response file; any subset of commands fails, -k in {1,2}, -j in {1,2,3}: content checked at each command start, removed after success, kept (with the failed command\'s content) after failure')
 CHECKS['C16']['level_text'] += ' One shape lets two consecutive statements share one response-file path, with failures: the file of the failed command must still be there when ninja exits.'
+
+SCENARIOS += ['dead_outputs_dyndep']     # 56
+CHECKS['C18']['jobs'] += [dict(j, name='dead_outputs_dyndep_cleandead') for j in _tool_jobs([56], mode='MODE_CLEANDEAD', reach=('cleandead', 'recompacted'), bounds='full build of a dyndep shape (an implicit output and an input known only through the dyndep file, both recorded in the build log), then one statement removed from the manifest; optionally -t recompact and/or a build first; ninja -n -t cleandead, ninja -t cleandead, build')]
+CHECKS['C18']['level_text'] += ' A second cleandead job uses a dyndep shape: files that are in the graph only through a dyndep file (an implicit output it declares) are recorded in the build log and must survive cleandead.'
 
 # ---- the thorough tier as it is actually run: every job of the quick tier at the same bounds, plus the thorough_only jobs (heavier shapes, built-then-perturbed
 # states, all-subsets edits), plus deeper bounds for the byte-level kernels (C08 C09 C13 C14 C15 C16 C19/json).  Three-invocation histories of *every* pipeline shape
